@@ -41,5 +41,9 @@ func updatePackageInfoFromArgs(packageInfo *packaging.PackageInfo, configArgs ma
 		return fmt.Errorf("error overriding package info: %w", err)
 	}
 
+	if len(configArgs) > 0 {
+		return packageInfo.ValidateOverrides()
+	}
+
 	return nil
 }
